@@ -159,6 +159,23 @@ def replay(cfg, label, env, case):
         except Exception as e:
             return dict(reproduced=type(e).__name__ == label.split(":", 1)[1], detail="%s: %s" % (type(e).__name__, str(e)[:200]))
         return dict(reproduced=False, detail="no exception on the real library")
+    if label == "*":
+        # any clause of the item (twin disagreement): the adjoint clause of every symbol of the model, first failing one
+        last = None
+        for sname in sorted(k for k in env if not (k.startswith("w") or k.startswith("lam") or k.startswith("rnd"))):
+            try:
+                r = replay(cfg, "adj:d/d" + sname, env, case)
+            except Exception as e:
+                from .common import _raised_in_repo
+                if _raised_in_repo(e):
+                    return dict(reproduced=True, detail=dict(clause="completes without raising", raised="%s: %s" % (type(e).__name__, str(e)[:200])))
+                continue
+            if r.get("reproduced") is True:
+                r["detail"] = dict(r.get("detail") or {}, clause="adj:d/d" + sname)
+                return r
+            last = r
+        return dict(reproduced=False, detail="every adjoint clause holds on the real library") if last is not None else \
+            dict(reproduced=None, detail="no symbols to differentiate")
     if label.startswith("adj:shape(d/d") and label.endswith(")"):
         label = "adj:d/d" + label[len("adj:shape(d/d"):-1]       # decided by the value clause of the same symbol
     if not label.startswith("adj:d/d"):
